@@ -1,8 +1,36 @@
 (* C05 — Ports and links paired consistently on every physical channel; one driver, one reader per signal.
    Part 1: the certified checker that is evaluated (extracted) on the netlist the REAL floogen emitted
-   is sound for the semantic statement C05_on over the hardware model Hw.v. *)
-From FV Require Import Base RouteMap Netlist Hw Check CheckProofs.
+   is sound for the semantic statement C05_on over the hardware model Hw.v.
+   Part 2: over the generator model (tied to floogen by the netlist correspondence), for EVERY
+   description: every graph `build` accepts has a mirror link for every link (BuildProofs.build_ginv),
+   hence every compiled router holds, at each port index, a link on the input side and its reverse on
+   the output side or nothing on both, and the emitted instance wires request/response/wide of that
+   index to the same neighbour, or ties the inputs off and leaves the outputs open. *)
+From FV Require Import Base RouteMap Graph Desc Build Netlist Compile Routing Emit Hw Check CheckProofs
+     BuildProofs ModelProofs Examples.
 
 Theorem C05_checker_sound : forall n, chk_C05 n = [] -> C05_on n.
 Proof. exact chk_C05_sound. Qed.
 Print Assumptions C05_checker_sound.
+
+Definition C05_model_statement : Prop :=
+  (forall d g, build d = Ok g -> ginv g) /\
+  (forall d g c, build d = Ok g -> compile d g = Ok c ->
+     forall r, In r (c_rts c) -> Forall2 paired (cr_in r) (cr_out r)) /\
+  (forall d g c ri r x, build d = Ok g -> compile d g = Ok c -> In r (c_rts c) -> emit_rt d ri r = Ok x ->
+     forall i, (i < length (cr_in r))%nat -> port_wired (d_nw d) x i).
+
+Theorem C05_model_holds : C05_model_statement.
+Proof. exact (conj build_ginv (conj C05_model C05_model_netlist)). Qed.
+Print Assumptions C05_model_holds.
+
+(* non-vacuity: the mesh example builds and compiles, its four routers have five ports each, three or four in use *)
+Example C05_nonvacuous :
+  match (do g <- build (ex_mesh XY); do c <- compile (ex_mesh XY) g; Ok c) with
+  | Ok c => Nat.eqb (length (c_rts c)) 4 &&
+            forallb (fun r => Nat.eqb (length (cr_in r)) 5 &&
+                              Nat.leb 3 (length (filter (fun o : option link => is_some o) (cr_in r))) &&
+                              Nat.leb (length (filter (fun o : option link => is_some o) (cr_in r))) 4) (c_rts c)
+  | Err _ => false
+  end = true.
+Proof. vm_compute. reflexivity. Qed.
